@@ -1,6 +1,6 @@
 """C07 - remove_formatting removes exactly the requested settings, only inside the range."""
 from .. import obs as O
-from .common import (Contract, ansi_values, history, run_cases, tier_sizes, safe_obs, norm_range, settings_texts,
+from .common import (trie_case, Contract, ansi_values, history, run_cases, tier_sizes, safe_obs, norm_range, settings_texts,
                      GROUP_CODES, small_scope_values, small_scope_on, ss_ranges, SS_CODES)
 from ..gen import gen_range, gen_settings
 
@@ -166,6 +166,10 @@ def drive(ctx, mon, tier, only_case=None):
                             t = L.AnsiString(v)
                         t.remove_formatting(sel, a, b)
             ctx.extra['n_small_scope_values'] = nv
+            return
+        if case == 1:
+            # every history of apply/remove operations up to the tier's depth: each remove is judged where it happens
+            trie_case(ctx, mon, tier, 3, 4, judged_walk=True)
             return
         profile = rng.choice(['wf', 'wf', 'mixed', 'hostile'])
         history(L, rng, ex, rng.randint(2, sz['nops']), sz['maxlen'], profile, WEIGHTS)
